@@ -16,7 +16,7 @@ META = dict(
     technique="exhaustive enumeration of stencil accuracies x grids x samplings over the complete Fourier basis of each grid; analytic eigenvalue as reference",
     text="For 6-9 stencil accuracies, 3 grids and 2 samplings (one anisotropic) the real LaplaceOperator is applied to every plane wave of the grid and "
          "compared with the analytic eigenvalue of the stencil (coefficients typed in independently); vacuum propagation of band-limited waves "
-         "through RealSpaceMultislice preserves intensity for both orders and expansion scopes; lazy and eager real-space runs are compared.",
+         "through RealSpaceMultislice preserves intensity for both orders and expansion scopes; lazy and eager real-space runs are compared. All ordered pairs (thorough: triples) of stencil accuracies are used one after another on one grid in one process.",
     note="Bound: grids <= 12x10, accuracies <= 12 (18 thorough). The eigenvalue check is exhaustive for the operator on each enumerated grid because the "
          "operator is diagonal in the Fourier basis. Tolerance 1e-4 relative to max |lambda| (complex64 stencil).",
 )
